@@ -380,7 +380,74 @@ def ifnest(r):
     return s
 
 
-GENS = {"ifnest": ifnest, "uniform": uniform, "nestuse": nestuse, "longrun": longrun, "iopressure": iopressure, "squares": squares, "macro": macro, "pressure": pressure, "affine": affine, "bigconst": bigconst,
+def swap(a, b, t=6):
+    return move_add(a, t) + move_add(b, a) + move_add(t, b)
+
+
+def loopio(r):
+    """counted loops (2-4 iterations, or an input) whose body moves data between a few cells with
+    the classic idioms — swap and rotation through a temporary, copy, assignment — interleaved with
+    outputs of a cell just modified and with inputs into cells the body otherwise only reads: what
+    the optimiser / value numbering believes about a cell after a simultaneous assignment or across
+    the back edge is then observable"""
+    cells = [0, 1, 2, 3]
+    s = ''
+    for c in cells:
+        s += at(c, r.choice([',', '+' * r.randint(1, 9), '+' * r.randint(1, 9), '']))
+    s += at(4, r.choice(['++', '+++', '++++', ',']))
+
+    def stmt(depth):
+        a, b, c = r.sample(cells, 3)
+        k = r.below(20)
+        if k < 3:
+            return swap(a, b)
+        if k < 4:
+            return move_add(a, 6) + move_add(b, a) + move_add(c, b) + move_add(6, c)
+        if k < 6:
+            return assign(a, b)
+        if k < 9:
+            return copy_add(a, b, r.randint(1, 3), r.choice('++-'))
+        if k < 11:
+            return at(a, r.choice(['+.', '.', '-.', '.+']))
+        if k < 13:
+            return at(a, ',')
+        if k < 14:
+            return move_add(a, b, r.randint(1, 2))
+        if k < 15:
+            return clear(a)
+        if k < 16:
+            return addc(a, r.randint(-2, 3))
+        if k < 18 and depth < 1:
+            body = ''.join(stmt(depth + 1) for _ in range(r.randint(1, 3)))
+            return at(7, '[-]') + copy_add(a, 7, t=8) + at(7, '[[-]' + mv(-7) + body + mv(7) + ']')
+        return at(a, '.')
+    body = ''.join(stmt(0) for _ in range(r.randint(3, 7)))
+    s += at(4, '[' + mv(-4) + body + mv(4) + '-]')
+    for c in cells:
+        s += at(c, '.')
+    return s
+
+
+def shiftif(r):
+    """pointer-moving `if`s (`[ x >^b [-] ]`: the body runs at most once and ends b cells away on the
+    cell it clears) as the last thing of a pointer-moving loop body that moves back by the same
+    amount, on data where the `if` is taken in some iterations and skipped in others — the two moves
+    around the join point are adjacent in the bytecode but not always executed together"""
+    n = r.randint(3, 6)
+    s = ''.join(r.choice([',', ',', ',', '+', '++', '+++', '']) + '>' for _ in range(n)) + '<' * r.randint(1, n)
+    for _ in range(r.randint(1, 2)):
+        a, b = r.randint(0, 2), r.randint(1, 3)
+        fw, bw = ('>', '<') if r.below(4) else ('<', '>')
+        x = r.choice(['-', '-', '', '.', '+', '-.'])
+        iff = '[' + x + fw * b + '[-]]'
+        pre = r.choice(['-', '-', '-' + fw + '+' + bw, '.-', '-' + fw * (a + b + 1) + '+' + bw * (a + b + 1)])
+        s += '[' + pre + fw * a + iff + bw * (a + b) + ']'
+        s += r.choice(['', '>', '<', '.', '+'])
+    s += r.choice(['.>.>.>.', '.<.<.', '.>.<<.>>>.', '+.>+.>+.'])
+    return s
+
+
+GENS = {"loopio": loopio, "shiftif": shiftif, "ifnest": ifnest, "uniform": uniform, "nestuse": nestuse, "longrun": longrun, "iopressure": iopressure, "squares": squares, "macro": macro, "pressure": pressure, "affine": affine, "bigconst": bigconst,
         "roam": roam, "diverge": diverge}
 
 
